@@ -84,6 +84,19 @@ def gen_case(prop: str, ctx: Ctx, rng: random.Random) -> dict:
             if rng.random() < 0.7:
                 e[1] = rng.choice([lo, (lo + hi) // 2, hi - 1, hi, lo - 1, lo + MIN, hi - MIN, lo + 30 * NS + 5]) % DAY
         return {'expr': e, 'chain': [ref, 6], 'fracs': []}
+    if prop == 'C13' and ctx.affected and rng.random() < 0.25:
+        # a bound inside a skipped / repeated wall-clock interval, a time-of-day base trigger inside the same interval,
+        # every policy pair, reference instants before, between and after the two passes
+        t, lo, hi, _fw = rng.choice(ctx.affected)
+        span = max(MIN, hi - lo)
+        pick = lambda: (lo + rng.randrange(0, max(1, span // MIN)) * MIN + rng.choice([0, 0, 30 * NS])) % DAY   # noqa: E731
+        base = ['time', pick(), rng.choice(['skip', 'earlier', 'later', 'after']),
+                rng.choice(['skip', 'earlier', 'later', 'twice']), None]
+        e = [rng.choice(['earliest', 'latest']), base, pick(), rng.choice(['skip', 'earlier', 'later', 'after']),
+             rng.choice(['earlier', 'later', 'twice', 'twice', 'skip']), None]
+        qs = [t + d for d in (-DAY - HOUR, -3 * HOUR, -2 * HOUR, -90 * MIN, -61 * MIN, -45 * MIN, -30 * MIN, -10 * MIN, -1, 0,
+                              10 * MIN, 20 * MIN, 40 * MIN, 59 * MIN, 61 * MIN, 2 * HOUR)]
+        return {'expr': e, 'queries': qs, 'fracs': fracs(rng)}
     if prop == 'C13':
         e = ctx.op_expr(ctx.base_expr(0.2, ref), 0.15)
         if rng.random() < 0.3:
@@ -105,7 +118,12 @@ def gen_case(prop: str, ctx: Ctx, rng: random.Random) -> dict:
         return {'expr': e, 'chain': [ref, 25], 'fracs': [rng.random() for _ in range(16)] + [0.0, 1.0]}
     if prop == 'C16':
         unsat = ctx.unsat_filter()
-        kind = rng.choice(['time', 'time', 'group', 'op', 'interval', 'sparse'])
+        kind = rng.choice(['time', 'time', 'group', 'op', 'interval', 'sparse', 'tiny'])
+        if kind == 'tiny':
+            # a legal interval far below a microsecond, starting right at the reference: a handful of steps
+            # (oracle only: float seconds of a few hundred nanoseconds are not compared with the model)
+            e = ['interval', ref + rng.choice([0, 1000, 2500]), rng.choice([400, 250, 900, 1]), None]
+            return {'expr': e, 'queries': [ref, ref + 1, ref + 1700], 'fracs': [0.5], 'budget': 3, 'nocoq': True}
         if kind == 'time':
             e = ['time', ctx.tod(), rng.choice(['skip', 'earlier', 'later', 'after']), rng.choice(['skip', 'earlier', 'later', 'twice']), unsat]
         elif kind == 'group':
